@@ -219,6 +219,46 @@ def generate():
     emit("gen_rs_builds_dict", "bool", lambda: site("eval_sys_read_string")[1], False)
     emit("gen_r_builds_dict", "bool", lambda: site("eval_sys_read")[1], False)
 
+    def r_channel():
+        fn = astlib.find_func(S, "eval_sys_read")
+        b = astlib.body_no_doc(fn)
+        src = [ast.unparse(n) for n in b[:3]]
+        if len(b) != 4 or src[0] != "f = klong['.sys.cin']" or src[1] != "k = f.raw.tell()" or not isinstance(b[3], ast.If):
+            raise ShapeError("eval_sys_read: f = ...; k = f.raw.tell(); r = ...; if r == '' expected")
+        if src[2] == "r = f.raw.read()":
+            lstrip = False
+        elif src[2] == "r = f.raw.read().lstrip()":
+            lstrip = True
+        else:
+            raise ShapeError("eval_sys_read: text assignment is %s" % src[2])
+        iff = b[3]
+        if ast.unparse(iff.test) != "r == ''":
+            raise ShapeError("eval_sys_read: end-of-file test is %s" % ast.unparse(iff.test))
+        if [ast.unparse(n) for n in iff.body] != ["f.at_eof = True", "return None"]:
+            raise ShapeError("eval_sys_read: end-of-file branch")
+        els = iff.orelse
+        if len(els) < 3 or not isinstance(els[0], ast.Assign) or ast.unparse(els[0].targets[0]) != "(i, a)":
+            raise ShapeError("eval_sys_read: i, a = kg_read_array(...) expected")
+        call = els[0].value
+        if not (isinstance(call, ast.Call) and ast.unparse(call.func) == "kg_read_array" and len(call.args) >= 2
+                and ast.unparse(call.args[0]) == "r" and ast.unparse(call.args[1]) == "0"):
+            raise ShapeError("eval_sys_read: parser is not called on (r, 0)")
+        if not isinstance(els[-1], ast.Return):
+            raise ShapeError("eval_sys_read: return expected")
+        mid = [ast.unparse(n) for n in els[1:-1]]
+        if mid == ["f.raw.seek(k, 0)", "f.raw.read(i)"]:
+            by = False
+        elif mid == ["f.raw.seek(k + i, 0)"]:
+            by = True
+        else:
+            raise ShapeError("eval_sys_read: repositioning is %r" % (mid,))
+        for n in ast.walk(fn):
+            if isinstance(n, ast.Assign) and n is not b[2] and any(ast.unparse(t) == "r" for t in n.targets):
+                raise ShapeError("eval_sys_read: r is assigned twice")
+        return lstrip, by
+    emit("gen_r_lstrip", "bool", lambda: r_channel()[0], True)
+    emit("gen_r_reposition_bytes", "bool", lambda: r_channel()[1], True)
+
     emit("gen_sym_prefix", "zs", lambda: _fprefix(astlib.find_func(W, "kg_write_symbol"), "x"), "")
     emit("gen_char_prefix", "zs", lambda: _fprefix(astlib.find_func(W, "kg_write_char"), "c"), "")
 
@@ -1058,6 +1098,121 @@ def wider_sweep(chk, impl, budget=60000):
     return None
 
 
+CHANNEL_POOL = None
+
+
+def channel_pool():
+    global CHANNEL_POOL
+    if CHANNEL_POOL is None:
+        CHANNEL_POOL = [
+            I(0), I(7), I(-5), I(120), I(10 ** 30), R(2.5), R(-1.5e-10), R(1e100), R(-0.0), Ch("x"), Ch(" "), Ch("]"), Ch('"'), Ch("\u00e9"),
+            St(""), St("a"), St('say "hi"'), St("two\nlines"), St("b ]"), St(':"c"'), St("\u00e9\u20ac"), St("\U0001F600 "), St("ends in 9"), St("["),
+            Sy("foo"), Sy("a.b"), Sy("z9"), L(), L(I(1), I(2), I(3)), L(I(-1)), L(R(2.5), R(-3.0)), L(St("x"), Ch("y"), Sy("z")),
+            L(L(I(1), I(2)), L(I(3), I(4))), L(L(), L()), L(I(1), L(St("]"), L(R(0.5)))), L(St("\u00e9"), I(3)),
+            D(), D((I(1), I(2))), D((Sy("a"), L(I(1), L(I(2), I(3))))), D((St("k\u00fc"), St('q"')), (I(-3), Ch("}")))]
+    return CHANNEL_POOL
+
+
+def channel_groups(tier, rng):
+    """(values, separator, trailing text) — files of 1..6 written values"""
+    pool = channel_pool()
+    for v in pool:
+        yield [v], " ", ""
+        yield [v], " ", " "
+    core = pool if tier == "thorough" else [pool[i] for i in (1, 2, 6, 10, 13, 15, 17, 18, 20, 24, 28, 32, 35, 36, 38, 39)]
+    for a in core:
+        for b in core:
+            yield [a, b], " ", ""
+    tri = [pool[i] for i in ((2, 6, 13, 17, 20, 28, 34, 39) if tier == "quick" else (1, 2, 6, 11, 13, 17, 20, 24, 28, 34, 37, 39))]
+    for t in itertools.product(tri, repeat=3):
+        yield list(t), " ", ""
+    for j in range(300 if tier == "quick" else 3000):
+        n = rng.randint(3, 6)
+        yield [rng.choice(pool) for _ in range(n)], rng.choice([" ", " ", "  ", "   ", "\t", " \t "]), rng.choice(["", "", " ", "  "])
+    # a line break between two objects is the token ";" for kg_read: compared with the model only
+    for j in range(40 if tier == "quick" else 300):
+        n = rng.randint(2, 4)
+        yield [rng.choice(pool) for _ in range(n)], rng.choice(["\n", " \n", "\n\n"]), rng.choice(["", "\n"])
+
+
+def check_channel(chk, impl, rng):
+    """files of several values written with .w through a real output channel (a separator written with .d between them),
+    read back with .r() again and again on one real input channel until it returns nothing"""
+    work = os.path.join(VERIF, ".work", "C11ch-%d" % os.getpid())
+    os.makedirs(work, exist_ok=True)
+    path = os.path.join(work, "chan.txt")
+    k = impl.k
+    k["path"] = path
+    bad_prop = bad_corr = None
+    rows, reqs = [], []
+    try:
+        for vals, sep, trail in channel_groups(chk.tier, rng):
+            xs = [impl_value(v, "array", impl.backend) for v in vals]
+            held = [canon(x) for x in xs]
+            for i, x in enumerate(xs):
+                k["v%d" % i] = x
+            k["sep"] = sep
+            k["trail"] = trail
+            prog = ".tc(T::.oc(path));" + ";.d(sep);".join(".w(v%d)" % i for i in range(len(xs))) + ";.d(trail);.cc(T)"
+            r = {"err": None, "got": [], "texts": []}
+            try:
+                k(prog)
+                with open(path, encoding="utf-8", newline="") as f:
+                    text = f.read()
+                k(".fc(F::.ic(path))")
+                try:
+                    for _ in range(len(xs) + 4 if "\n" not in sep + trail else len(text) + 4):
+                        y = k(".r()")
+                        if y is None:
+                            break
+                        r["got"].append(y)
+                finally:
+                    k(".cc(F);.fc(0)")
+            except Exception as e:  # noqa
+                r["err"] = type(e).__name__ + ": " + str(e)[:80]
+                text = None
+            want_text = sep.join(impl.write(x) for x in xs) + trail
+            backs = [canon(y) for y in r["got"]]
+            fmt, roi = env_tables(*(held + backs))
+            reqs.append("(rfile %s (%s))" % (env_sx(fmt, roi), " ".join(str(ord(c)) for c in (text if text is not None else want_text))))
+            rows.append((vals, sep, trail, xs, held, r, backs, text, want_text))
+        outs = chk.run_model(reqs)
+        for (vals, sep, trail, xs, held, r, backs, text, want_text), o in zip(rows, outs):
+            chk.count("evaluations")
+            chk.count("channel_files")
+            chk.count("channel_values", len(vals))
+            blank_sep = "\n" not in sep and "\n" not in trail
+            what = {"kind": "repeated .r on one channel", "value": " ; ".join(show(h, 60) for h in held), "separator": sep, "file_text": text,
+                    "read_back": [show(b, 60) for b in backs], "error": r["err"]}
+            if blank_sep:
+                ok = r["err"] is None and len(backs) == len(held)
+                if ok:
+                    for x, y, h, bk in zip(xs, r["got"], held, backs):
+                        try:
+                            ok = ok and impl.match(x, y) and amatch(h, bk) and impl.write(y) == impl.write(x)
+                        except Exception:  # noqa
+                            ok = False
+                if not ok:
+                    if bad_prop is None:
+                        what["expected"] = "%d values, each matching what was written, in order" % len(held)
+                        bad_prop = what
+                    continue
+            if o[0] == "ok":
+                m = [from_model(e) for e in o[1:]]
+            else:
+                m = o[0]
+            impl_res = backs if r["err"] is None else "err"
+            if (text != want_text or m != impl_res) and bad_corr is None:
+                what["kind"] = "channel-correspondence"
+                what["model"] = [show(e, 60) for e in m] if isinstance(m, list) else m
+                what["expected_file_text"] = want_text
+                bad_corr = what
+            chk.sample({"kind": "channel", "file": (text or "")[:60], "values": len(held)}, limit=10)
+    finally:
+        shutil.rmtree(work, ignore_errors=True)
+    return bad_prop, bad_corr
+
+
 # ------------------------------------------------------------------ run
 def run(tier, replay=None):
     chk = Check("C11", tier)
@@ -1089,7 +1244,8 @@ def run(tier, replay=None):
     b = check_hand_texts(chk, impl)
     if b:
         bad_corrs.append(b)
-    for fn in (lambda: check_roundtrip(chk, impl, rng), lambda: check_files(chk, impl, rng), lambda: check_form(chk, impl)):
+    for fn in (lambda: check_roundtrip(chk, impl, rng), lambda: check_files(chk, impl, rng), lambda: check_channel(chk, impl, rng),
+               lambda: check_form(chk, impl)):
         bp, bc = fn()
         if bp:
             bad_props.append(bp)
@@ -1113,6 +1269,7 @@ def run(tier, replay=None):
         rule="closed universe: every atom of the lists INTS/REALS/chars/symbols, every string of length <= 2 (quick) / 3 (thorough) over the alphabet "
              "\" [ ] : ; space newline 0 c a plus special strings; every list of <= 2 of 19 atoms; every atom inside a list and nested twice; every nesting of depth <= 2 "
              "with <= 2 elements, (thorough: all 81k / quick: 6000 sampled) of depth <= 2 with <= 3 elements and (thorough: all 76k / quick: 8000 sampled) of depth 3 with <= 2 elements over {1, 2.5, \"a\"}; seeded random nestings to depth 6; "
-             "object-array held lists; top-level dictionaries; file round trips through .w/.r; x:$$x on atoms; kg_asarray and reader shards. "
+             "object-array held lists; top-level dictionaries; file round trips through .w/.r; files of 1..6 values (every kind, 40-value pool: all singles, all pairs of a core, "
+             "all triples of 8 (quick) / 12 (thorough), seeded groups of 3..6 with blank/tab separators and trailing blanks, and newline separators for model comparison) written through .w/.d on an output channel and read with repeated .r; x:$$x on atoms; kg_asarray and reader shards. "
              "distinct_nontrivial = distinct values held by klongpy in the round-trip shard",
         trusted_base=TRUSTED, assumptions=ASSUME)
